@@ -53,7 +53,7 @@ def fn_of_line(linemap, line):
 
 
 def clause_tag(text):
-    m = re.search(r"/\*@(spec|loop|hint) ([^*]+)\*/", text or "")
+    m = re.search(r"/\*@(spec|loop|hint|closure) ([^*]+)\*/", text or "")
     return (m.group(1), m.group(2)) if m else None
 
 
